@@ -89,7 +89,9 @@ def check(kind, case, rec):
             mask = np.random.default_rng(mk["seed"]).uniform(size=len(pts)) < mk["p"]
     kw = dict(only_surface=case["only_surface"])
     if mask is not None:
-        kw["mask"] = mask
+        # the same selection as a boolean array or as point indices (np.where / Boundary.points deliver the latter)
+        kw["mask"] = mask if case["sseed"] % 2 == 0 else np.flatnonzero(mask)
+        rec.label("mask=" + ("boolean" if case["sseed"] % 2 == 0 else "indices"))
     if case["ensure_3d"]:
         kw["ensure_3d"] = True
     rb = getattr(fem, BTMPL[kind])(mesh, **kw)
@@ -107,7 +109,8 @@ def check(kind, case, rec):
     if mask is not None:
         expect = [f for f in expect if mask[list(f)].all()]
     got = [tuple(sorted(f)) for f in np.asarray(rb.mesh.cells_faces).tolist()]
-    rec.require("face-selection", sorted(got) == sorted(expect), {"got": len(got), "expect": len(expect)})
+    if not rec.require("face-selection", sorted(got) == sorted(expect), {"got": len(got), "expect": len(expect), "only_surface": case["only_surface"]}):
+        return  # the per-face oracles below assume the selection
     rec.label(f"faces={min(len(got), 9)}")
     if len(got) == 0:
         rec.label("empty-selection")
